@@ -14,7 +14,12 @@ def main():
     mod = importlib.import_module(f'mc.checks.{prop.lower()}')
     out = mod.replay(doc['replay'])
     print(json.dumps(out, indent=1, default=repr))
-    bad = bool(out.get('violations'))
+    # the replay re-evaluates every clause of the check on this one case; only the recorded clause counts here
+    token = doc.get('key', '').split('/')[0].replace('api-session:', '').replace('session:', '')
+    vs = out.get('violations') or []
+    hits = [v for v in vs if token and token in json.dumps(v, default=repr)]
+    print(f'clause {token!r}: {len(hits)} of {len(vs)} reported violation(s) match')
+    bad = bool(hits) if token else bool(vs)
     print('REPRODUCED' if bad else 'NOT-REPRODUCED')
     return 1 if bad else 0
 
